@@ -7,4 +7,4 @@ trap 'git -C /repo worktree remove --force "$TMP/wt" >/dev/null 2>&1; rm -rf "$T
 git -C /repo worktree add --detach "$TMP/wt" HEAD >/dev/null 2>&1 || exit 2
 git -C "$TMP/wt" apply "$2" || { echo "PATCH DOES NOT APPLY"; exit 3; }
 (cd "$TMP/wt" && go build ./...) || { echo "DOES NOT BUILD"; exit 3; }
-VERIF_EVIDENCE_DIR="$TMP/ev" bin/webpcheck -prop "$1" -tier "${3:-quick}" -repo "$TMP/wt" -verif "$(pwd)" 2>&1 | grep -v '^VIOLATION' | cut -c1-500
+VERIF_EVIDENCE_DIR="$TMP/ev" ${WC:-bin/webpcheck} -prop "$1" -tier "${3:-quick}" -repo "$TMP/wt" -verif "$(pwd)" 2>&1 | grep -v '^VIOLATION' | cut -c1-500
